@@ -17,6 +17,14 @@ shape under which the general theorem applies (case-insensitive alternation cont
 no-cache, no-store and private; presence test on all Set-Cookie values). -/
 theorem facts_ok : cfgOfFacts.map (fun c => decide (CfgOK c)) = some true := by decide
 
+/-- Obligation on the extracted facts (all non-test files): the upstream exchange is performed by `net/http`'s own
+transport — pike declares no `RoundTrip` of its own and builds no `http.Client` in the request path.  A wrapper
+(retry after a lost connection, a client that follows redirects) changes how often a request reaches the origin and
+which of the origin's answers is judged and stored; "forwarded exactly once" and "stored only if the origin marked it
+shareable" are stated about the exchange the model sees: one request, one answer.  (Dynamic counterpart: suite `fault`.) -/
+theorem facts_upstream_exchange_is_plain :
+    Facts.roundTripperImpls = [] ∧ Facts.requestPathHTTPClients = [] := by decide
+
 /-- Obligation on the regenerated statement skeletons of `getCacheMaxAge` and `requestIsPass`: they are,
 statement for statement, what `Fresh.cacheMaxAge` / `Fresh.requestIsPass` transcribe (Set-Cookie test,
 joined Cache-Control, the three regular expressions in this order, s-maxage before max-age, Age subtracted
